@@ -102,6 +102,14 @@ func (p *PacketProcessor) ProcessPacketData(data []byte, _ *gopacket.CaptureInfo
 }
 
 func validPacket(decoded []gopacket.LayerType) bool {
+	// the last two layers must be the IPv4 and ICMP headers of this very packet,
+	// otherwise rcvIP/rcvICMP still hold the data of an earlier packet
+	if n := len(decoded); n < 2 || decoded[n-2] != layers.LayerTypeIPv4 || decoded[n-1] != layers.LayerTypeICMPv4 {
+		return false
+	}
+	if len(decoded) == 3 && decoded[0] != layers.LayerTypeEthernet {
+		return false
+	}
 	return len(decoded) == 3 || (len(decoded) == 2 && decoded[0] == layers.LayerTypeIPv4)
 }
 
